@@ -16,12 +16,12 @@ RULE = ('Evaluation = one run() + three metar_msg() calls on a frame that satisf
         'the widest generator configuration (1-8 ceilometers, 1-1200 rows, spans 0.5 s - 1 day, heights 0-1e5, '
         'types > 3, VV, type-0 with height, type-1 with NaN, missing lower types, sub-second / offset / positive '
         'time axes, all degenerate families, thick bi/tri-modal groups, chains of close layers, non-unique index '
-        'labels) x the full parameter generator (all three scaling modes, thresholds down to 0.004, LOWESS it=0, '
+        'labels, superfluous columns holding lists/dicts/arrays/timestamps) x the full parameter generator (all three scaling modes, thresholds down to 0.004, LOWESS it=0, '
         'rescale_0_to_x None, 1-3 separation bins, exclusion lists, MSA anywhere; a third of the cases with legal corner values: look-back 0.001 %, percentiles 0/100, LOWESS frac 1e-6..1, buffers 0/1e5, equal height_scale_range bounds, separations 1e-6..1e5, delta_mul_gain 1e-6..10, rescale 1e-3/1e6). Distinct = hash of (rows, '
         'parameters); every case counts as non-trivial except the single-row ones.')
 ASSUMPTIONS = ['BLAS/OpenMP threads fixed to 1', 'settings that shatter > 150 hits into hundreds of slices are not '
                'generated: the grouping step is quadratic in the number of slices (slow, not divergent)']
-REQUIRED = ['extreme_parameters', 'fam:generic', 'fam:degenerate', 'fam:bimodal', 'fam:chain', 'fam:empty_after_crop', 'scaling:minmax-scale',
+REQUIRED = ['extra_object_columns', 'extreme_parameters', 'fam:generic', 'fam:degenerate', 'fam:bimodal', 'fam:chain', 'fam:empty_after_crop', 'scaling:minmax-scale',
             'scaling:shift-and-scale', 'scaling:step-scale', 'anomalies', 'refusal:missing_column',
             'refusal:duplicates', 'refusal:type0_coincident', 'refusal:vv_coincident', 'refusal:empty',
             'refusal:not_a_frame', 'refusal:call_order', 'refusal:min_sep_lengths'] + \
@@ -38,7 +38,7 @@ def plan(tier, seed):
     for i in range(z['generic']):
         out.append({'fam': 'generic', 's': seed, 'p': NUM, 'i': i, 'allow_empty': True,
                     'k': {'big': i % 5 == 0, 'anom': i % 2 == 0, 'index': 'concat' if i % 10 == 3 else None,
-                          'extreme': i % 3 == 1, 'maxrows': 3000 if (tier == 'thorough' and i % 50 == 0) else 1200}})
+                          'extreme': i % 3 == 1, 'extra': 'objects' if i % 7 == 2 else None, 'maxrows': 3000 if (tier == 'thorough' and i % 50 == 0) else 1200}})
     for i in range(z['eng']):
         fam = ['bimodal', 'chain', 'tiecut', 'bimodal'][i % 4]
         out.append({'fam': fam, 's': seed, 'p': NUM, 'i': 100000 + i,
@@ -80,6 +80,8 @@ def check_refusal(desc):
         arg = df.drop(columns=[str(rng.choice(['ceilo', 'dt', 'height', 'type']))])
     elif kind == 'duplicates':
         arg = pd.concat([df, df.iloc[[int(rng.integers(len(df)))]]], ignore_index=True)
+        if desc['i'] % 2:
+            arg['aux'] = [[i] for i in range(len(arg))]           # unhashable cells in a superfluous column
     elif kind == 'type0_coincident':
         r = df.iloc[int(rng.integers(len(df)))]
         extra = pd.DataFrame({'ceilo': pd.array([r['ceilo']], dtype=pd.StringDtype()), 'dt': [r['dt']],
@@ -168,6 +170,8 @@ def check(desc):
         tags.add('extreme_parameters')
     if sc.get('index') is not None:
         tags.add('nonunique_index')
+    if sc.get('extra'):
+        tags.add('extra_object_columns')
     nontriv = [pipeline.case_digest(case)] if len(sc['rows']) > 1 else []
     res = {'evals': 1, 'nontrivial': nontriv, 'tags': sorted(tags), 'viol': viol,
            'counters': {'runs': 1, 'cpu_s_total': cpu}, 'case': case}
